@@ -412,7 +412,9 @@ class MailboxSet(MailboxSetInterface[MailboxData]):
             if name not in self._set:
                 raise KeyError(name)
         async with self._set_lock.write_lock():
-            del self._set[name]
+            mbx = self._set.pop(name)
+        # sessions idling on it find out that it is gone
+        mbx._updated.set()
 
     async def rename_mailbox(self, before: str, after: str) -> None:
         async with self._set_lock.read_lock():
@@ -432,3 +434,5 @@ class MailboxSet(MailboxSetInterface[MailboxData]):
                 else:
                     self._set[after_name] = self._set[before_name]
                     del self._set[before_name]
+                # sessions idling on it find out that the name is gone
+                self._set[after_name]._updated.set()
